@@ -29,7 +29,7 @@ def glue_jobs(mode: str, tier: str, chunk: int = 40) -> List[Dict]:
 
     if tier == "quick":
         add(1, 6, 0, 1, 1, 200)
-        add(2, 5, 1, 0, 0, 300)
+        add(2, 5, 1, 1 if mode == "C04" else 0, 0, 300)
     elif mode == "C07":
         add(1, 6, 0, 0, 1, 400)
         add(2, 6, 1, 0, 1, 900)
@@ -38,6 +38,8 @@ def glue_jobs(mode: str, tier: str, chunk: int = 40) -> List[Dict]:
         add(1, 6, 0, 2, 1, 400)
         add(2, 6, 1, 1, 1, 900)
         add(3, 3, 1, 0, 0, 900)
+        if mode == "C04":
+            add(3, 1, 0, 1, 0, 900)  # three requirement keys with a yielding first key: completion order vs key order
     return jobs
 
 
@@ -45,7 +47,7 @@ def glue_bounds(tier: str) -> Dict[str, str]:
     if tier == "quick":
         return {
             "glue": "all 1-leaf expressions (6 leaf kinds, 4 spelling/bracket variants, yields<=1) and all 150 two-leaf shapes "
-            "(3 operators x 5x5 leaf kinds x attached-FC flag; one spelling/bracket variant per shape) x all states of the requirement keys; yields 0"
+            "(3 operators x 5x5 leaf kinds x attached-FC flag; one spelling/bracket variant per shape) x all states of the requirement keys; yields <= 1 for C04 (0 otherwise); C04: the same parsed tree evaluated a second time under a rotated assignment"
         }
     return {
         "glue": "1-leaf: all; 2-leaf: all 216 shapes (6 leaf kinds incl. bare format constraint) x 4 spelling/bracket/duplicate-key variants x all states x yields<=1; "
